@@ -98,8 +98,10 @@ LEVELS = {
         "text": "Proof: C20_all_once — for every number of eon keys pending at a polling tick, every order in which the database returns "
                 "them, both publication modes: if they belong to keyper sets the keyper is a member of and the publication mechanism "
                 "accepts, each is handed over exactly once with the right activation block, keyper-set index and eon number, and the tick "
-                "reports no error; C20_any_order, C20_only_pending. The model is tied to queryAndHandleNewEonPubKeys by running the real "
-                "handler (hook) over the PostgreSQL fake on multi-tick scenarios; the implementation's hand-overs are also checked directly.",
+                "reports no error; C20_any_order, C20_only_pending; C20_every_interval — over any sequence of intervals, whatever was "
+                "refused or failed in the others. The model is tied to queryAndHandleNewEonPubKeys by running the real "
+                "handler (hook) over the PostgreSQL fake on multi-tick scenarios; the implementation's hand-overs are also checked directly, "
+                "and the real polling loop is run (hook) with a refused key followed by a later one.",
         "design_ref": "DESIGN.md §4 C20",
         "note": "Trusted: Lean kernel; correspondence harness incl. pgfake/kdb (my reading of the SQL); the verif-tag hook.",
         "technique": "Lean 4 theorem by induction over the pending list + differential runs of the real handler over an in-process PostgreSQL fake",
